@@ -86,18 +86,121 @@ def eta(co, x):
     return float(r) if r < 10 ** 300 else float("inf")
 
 
-def norm_disc(co):
-    """exact discriminant of the depressed cubic, normalised: delta / (|4p^3| + |27q^2|)"""
-    a3, a2, a1, a0 = [Fr(v) for v in co]
-    p = a1 / a3 - a2 * a2 / (3 * a3 * a3)
-    q = a0 / a3 - a2 * a1 / (3 * a3 * a3) + 2 * a2 ** 3 / (27 * a3 ** 3)
-    d = -4 * p ** 3 - 27 * q * q
-    s = abs(4 * p ** 3) + abs(27 * q * q)
-    return float(d / s) if s else 0.0
+EPS = 2.0 ** -52
+
+
+def psign(A, co, x):
+    """exact sign of P(x): double Horner with a running error bound, rational arithmetic when in doubt"""
+    a3, a2, a1, a0 = co
+    v = ((a3 * x + a2) * x + a1) * x + a0
+    ax = abs(x)
+    bound = ((abs(a3) * ax + abs(a2)) * ax + abs(a1)) * ax + abs(a0)
+    if finite(v) and finite(bound) and abs(v) > 16 * EPS * bound:
+        return 1 if v > 0 else -1
+    X = Fr(x)
+    w = ((A[0] * X + A[1]) * X + A[2]) * X + A[3]
+    return (w > 0) - (w < 0)
+
+
+def reference_roots(co):
+    """independent reference: the real roots of the cubic isolated between its critical points and
+    located by bisection on the EXACT sign of P (to one ulp). Returns (roots, critical_points) or None
+    when the bracketing quantities are not representable."""
+    a3, a2, a1, a0 = co
+    A = [Fr(v) for v in co]
+    try:
+        B = 1.0 + max(abs(a2 / a3), abs(a1 / a3), abs(a0 / a3))
+    except (OverflowError, ZeroDivisionError):
+        return None
+    if not finite(B):
+        return None
+    disc = A[1] * A[1] - 3 * A[0] * A[2]
+    crit = []
+    if disc >= 0:
+        try:
+            sq = math.sqrt(float(disc)) if disc < 10 ** 600 else None
+        except OverflowError:
+            sq = None
+        if sq is None or not finite(sq):
+            return None
+        for sgn in (-1.0, 1.0):
+            c = (-a2 + sgn * sq) / (3 * a3)
+            if finite(c):
+                crit.append(c)
+    pts = sorted(set([-B] + [c for c in crit if -B < c < B] + [B]))
+    roots = []
+    for l, r in zip(pts, pts[1:]):
+        sl, sr = psign(A, co, l), psign(A, co, r)
+        if sl == 0:
+            roots.append(l)
+            continue
+        if sr == 0 or sl == sr:
+            continue
+        lo, hi = l, r
+        for _ in range(2200):
+            mid = lo + (hi - lo) / 2
+            if mid <= lo or mid >= hi:
+                break
+            sm = psign(A, co, mid)
+            if sm == 0:
+                lo = hi = mid
+                break
+            if sm == sl:
+                lo = mid
+            else:
+                hi = mid
+        roots.append(lo if abs(lo) < abs(hi) else hi)
+    if psign(A, co, pts[-1]) == 0:
+        roots.append(pts[-1])
+    return sorted(set(roots)), crit
+
+
+def forward_predicate(co, n, xs):
+    """the property on an answer, by forward error against `reference_roots`.
+    R = size of the root configuration; a returned value is a genuine root when it lies within TOL*R of
+    a real root of the cubic, or of a critical point where |P| <= 1e-9 |a3| R^3 (numerically double root:
+    accuracy achievable for multiplicity 2). Returns (ok, why, detail) or (None, ..) when not decidable."""
+    ref = reference_roots(co)
+    if ref is None:
+        return None, "reference roots not representable", {}
+    roots, crit = ref
+    a3 = co[0]
+    R = max([abs(t) for t in roots] + [abs(c) for c in crit] + [root_scale(co) / 4])
+    if not finite(R) or R == 0:
+        return None, "degenerate scale", {}
+    A = [Fr(v) for v in co]
+
+    def pabs(x):
+        X = Fr(x)
+        return abs(((A[0] * X + A[1]) * X + A[2]) * X + A[3])
+    tang = [c for c in crit if pabs(c) <= Fr(1, 10 ** 9) * abs(A[0]) * Fr(R) ** 3]
+    T = roots + tang
+    detail = {"reference_real_roots": roots, "near_double_points": tang, "scale_R": R}
+    if not all(finite(x) for x in xs):
+        return False, "a returned value is not finite", detail
+
+    def dist(x):
+        return min(abs(x - t) for t in T) / R if T else float("inf")
+    d = [dist(x) for x in xs]
+    detail["forward_errors"] = d
+    if n == 3:
+        if max(d) > TOL:
+            return False, "returned 3 but x%d=%r is at relative distance %.3g from every real root" % (d.index(max(d)) + 1, xs[d.index(max(d))], max(d)), detail
+        for t in roots:
+            if min(abs(x - t) for x in xs) / R > TOL:
+                return False, "returned 3 but the real root %r is not among the returned values" % t, detail
+        if len(roots) == 1 and not tang and (not crit or min(pabs(c) for c in crit) >= Fr(1, 1000) * abs(A[0]) * Fr(R) ** 3):
+            return False, "returned 3 for a cubic with a single, well isolated real root", detail
+    else:
+        if min(d) > TOL:
+            return False, "returned 1 but no returned value is a real root (closest at relative distance %.3g; real roots %s)" % (min(d), roots), detail
+        if len(roots) == 3 and min(roots[1] - roots[0], roots[2] - roots[1]) >= 0.01 * R:
+            return False, "returned 1 for a cubic with three well-separated real roots %s" % roots, detail
+    return True, "ok", detail
 
 
 def in_domain(co):
-    """inputs on which no intermediate of find_roots overflows or underflows: the residual predicate
+    """inputs on which no intermediate of find_roots overflows or underflows: the property predicate
     is asserted directly (not only on disagreements) inside this domain"""
     a3 = co[0]
     if not all(finite(c) for c in co) or abs(a3) < 1e-290 or any(abs(c) > 1e290 for c in co):
@@ -110,26 +213,19 @@ def in_domain(co):
 
 
 def roots_predicate(co, n, xs):
-    """the property evaluated on an answer (n, x1, x2, x3) of find_roots/exe; returns (ok, why)"""
+    """the property evaluated on an answer (n, x1, x2, x3) of find_roots/exe; returns (ok, why, detail)"""
     if not all(finite(c) for c in co):
-        return True, "non-finite input (outside the property)"
+        return True, "non-finite input (outside the property)", {}
     if abs(co[0]) <= PREC:
-        return (n == 0), "negligible leading coefficient: must return 0"
+        return (n == 0), "negligible leading coefficient: must return 0", {}
     if n not in (1, 3):
-        return False, "returned %d for a non-negligible leading coefficient" % n
-    e = [eta(co, x) for x in xs]
-    nd = norm_disc(co)
-    if n == 3:
-        if max(e) > TOL:
-            return False, "returned 3 but a value presented as a root has relative residual %.3g" % max(e)
-        if nd < -1e-6:
-            return False, "returned 3 for a cubic with a single real root (normalised discriminant %.3g)" % nd
-    else:
-        if min(e) > TOL:
-            return False, "returned 1 but no returned value is a root (smallest relative residual %.3g)" % min(e)
-        if nd > 1e-6:
-            return False, "returned 1 for a cubic with three well-separated real roots (normalised discriminant %.3g)" % nd
-    return True, "ok"
+        return False, "returned %s for a non-negligible leading coefficient" % n, {}
+    ok, why, detail = forward_predicate(co, n, xs)
+    if ok is None:   # scale not representable: fall back to the backward-error measure
+        e = [eta(co, x) for x in xs]
+        v = max(e) if n == 3 else min(e)
+        return (v <= TOL), "relative residual %.3g (%s)" % (v, why), {"eta": e}
+    return ok, why, detail
 
 
 # ----------------------------------------------------------------------------- generators
@@ -181,7 +277,7 @@ def gen_cubic(rng, c):
         t = rng.uniform(-5, 5)
         return cub(1.0, r, r * (1 + rng.choice([0, 1e-8, 1e-12, -1e-15, 3e-16, 1e-14, -1e-13])), t)
     if c == "boundary":
-        k = rng.randrange(6)
+        k = rng.randrange(7)
         pv = rng.choice([PREC, -PREC, nextafter(PREC, True), nextafter(PREC, False), -nextafter(PREC, False)])
         other = rng.choice([1.0, -1.0, 1e-200, -1e-200, 1e-100, 3.0, 0.0, PREC, -PREC])
         if k == 0:
@@ -192,6 +288,9 @@ def gen_cubic(rng, c):
             return (1.0, 0.0, other, pv)
         if k == 3:
             return (rng.choice([1.0, -1.0, 2.0]), 0.0, pv, pv)
+        if k == 6:   # double root at a scale where delta is subnormal: sqrt(-delta/27) underflows to 0, u = v: `cardano3`
+            sc = rng.uniform(0.5, 2) * 10 ** rng.choice([-52, -51.7, -51.9, -52.2])
+            return (1.0, 0.0, -3 * sc * sc, 2 * sc ** 3 * (1 + rng.choice([1e-9, 1e-6, 1e-3, 1e-12])) * rng.choice([1, -1]))
         if k == 4:   # cbrt(q) at the threshold: q = prec^3 underflows; use tiny q
             return (1.0, 0.0, 0.0, rng.choice([5e-324, -5e-324, 1e-320, DBL_MIN, -DBL_MIN, PREC, -PREC]))
         return (1.0, 0.0, -3.0 * rng.choice([1.0, 4.0, 0.25]), rng.choice([2.0, -2.0, 16.0, 0.25]))
@@ -253,6 +352,10 @@ def run_batch(ck, harness, driver, consts_line, cases):
     return lines, impl, model, crashed, pi.stderr[-2000:]
 
 
+def same_find(a, m):
+    return canon(a) == canon(m)
+
+
 def parse_roots(ans):
     f = ans.split()
     try:
@@ -308,9 +411,9 @@ def run(ck):
         for k, (c, co, _) in enumerate(cs):
             if 4 * k < len(i2) and in_domain(co):
                 n, xs = parse_roots(i2[4 * k])
-                ok, why = roots_predicate(co, n, xs)
+                ok, why, det = roots_predicate(co, n, xs)
                 if not ok:
-                    return {"a3 a2 a1 a0": list(co), "implementation": i2[4 * k], "why": why}
+                    return {"a3 a2 a1 a0": list(co), "implementation": i2[4 * k], "why": why, "detail": det}
         return None
     ck.lean_violations(res, search)
 
@@ -319,6 +422,7 @@ def run(ck):
     hist_class_branch = collections.Counter()
     hist_n = collections.Counter()
     eta_max = collections.defaultdict(float)
+    fwd_max = collections.defaultdict(float)
     distinct = set()
     failures = {}      # key -> (rank, report, found)
     disagreements = 0
@@ -338,13 +442,15 @@ def run(ck):
         n_i, xs_i = parse_roots(impl[4 * k])
         hist_n[n_i] += 1
 
-        def report(kind, idx, why, found):
+        def report(kind, idx, why, found, extra=None):
             key = "%s:%s:%s" % (SITE, kind, fam if kind != "improve" else "residual")
             rep = {"request": lines[idx], "function": kind, "a3 a2 a1 a0": list(co), "class": cls,
                    "model_branch": br, "implementation": impl[idx], "model": model[idx],
                    "implementation_values": [dbl(x) if len(x) == 16 else x for x in impl[idx].split()[1:]],
                    "model_values": [dbl(x) if len(x) == 16 else x for x in model[idx].split()[1:] if not x.startswith("br=")],
                    "why": why}
+            if extra:
+                rep["reference"] = extra
             if kind == "improve":
                 rep["vp"] = vp
             rank = (0 if found else 1,) + simplicity(co)
@@ -353,19 +459,26 @@ def run(ck):
                 failures[full] = (rank, rep, found, why)
 
         # (1) find_roots
-        same = canon(impl[4 * k]) == canon(mfind)
-        ok, why = roots_predicate(co, n_i, xs_i) if n_i is not None else (False, "unparsable answer")
+        same = same_find(impl[4 * k], mfind)
         dom = in_domain(co)
+        ok, why, det = (True, "not evaluated", {})
+        if n_i is None:
+            ok, why = False, "unparsable answer"
+        elif not same_find(impl[4 * k], mfind) or dom:
+            ok, why, det = roots_predicate(co, n_i, xs_i)
         if not same:
             disagreements += 1
             if not ok:
-                report("find_roots", 4 * k, why, True)
+                report("find_roots", 4 * k, why, True, det)
             else:
-                report("find_roots", 4 * k, "answers differ bit-wise; the implementation's values still satisfy the residual predicate", False)
+                report("find_roots", 4 * k, "answers differ bit-wise; the implementation's values still satisfy the root predicate", False)
         elif dom:
             direct_checked += 1
             if not ok:
-                report("find_roots", 4 * k, why + " (model and implementation agree: rounding not covered by the exact theorems)", True)
+                report("find_roots", 4 * k, why + " (model and implementation agree: rounding not covered by the exact theorems)", True, det)
+        if dom and det.get("forward_errors"):
+            fw = det["forward_errors"]
+            fwd_max[br] = max(fwd_max[br], max(fw) if n_i == 3 else min(fw))
         if n_i in (1, 3) and dom:
             e = [eta(co, x) for x in xs_i]
             v = max(e) if n_i == 3 else min(e)
@@ -457,6 +570,7 @@ def run(ck):
         "branch_histogram": dict(hist_branch), "class_branch_histogram": dict(hist_class_branch),
         "returned_count_histogram": {str(k): v for k, v in hist_n.items()},
         "values_moved_by_refinement": improved,
+        "max_forward_error_by_branch_in_domain (distance to the reference real roots / root scale)": {k: v for k, v in sorted(fwd_max.items())},
         "max_relative_residual_by_branch_in_domain": {k: v for k, v in sorted(eta_max.items())},
         "observations": {
             "answers_with_non_finite_values (overflow in p^3/q^2 on extreme scalings, outside the modelled exact arithmetic)": nonfinite_outputs,
